@@ -405,6 +405,8 @@ func runC10(c *Ctx, r *Run) {
 		}
 	}
 
+	// ---- the shared validators the proofs call before touching responses (range / unit / nil tests per element)
+	checkGuardInventory(c, r, "OB-V3", "round_guards.json", func(n string) bool { return strings.HasPrefix(n, "pkg/math/arith.") })
 	// ---- COVER-2: repetition loops of the proofs cover every repetition
 	{
 		var fns []*ssa.Function
